@@ -1,7 +1,7 @@
 // C16 driver: the LTS simulation engine driven directly (include/vata/explicit_lts.hh, src/explicit_lts_sim.cc).
 // case:   lts  <n> <ne> { <src> <label> <dst> }* P <nb> { <k> q1..qk }* R <np> { <i> <j> }*
 //         ltsd <n> <ne> { <src> <label> <dst> }*                       (no partition given)
-// output: for every output size m = 0..n one group   O <m> S <size()> <npairs> { q r }*
+// output: for every output size m = 0..n (n > 12: m in {0,1,2,n/2,n-1,n}) one group   O <m> S <size()> <npairs> { q r }*
 //         (ltsd: additionally   F S <size()> <npairs> {q r}*   for computeSimulation() without arguments)
 // A fresh ExplicitLTS is built for every call (edges inserted in the order of the case line).
 #include "common.hh"
@@ -40,12 +40,14 @@ int main() {
 				t.expect("R"); U np = t.num(); VATA::Util::BinaryRelation rel(nb, false);
 				for (U i = 0; i < np; ++i) { U x = t.num(); U y = t.num(); rel.set(x, y, true); }
 				for (U m = 0; m <= n; ++m) {
+					if (n > 12 && !(m <= 2 || m == n / 2 || m + 1 >= n)) continue;      // larger systems: a sample of the output sizes
 					VATA::ExplicitLTS lts = mkLTS(n, es);
 					VATA::Util::BinaryRelation r = lts.computeSimulation(part, rel, m);
 					os << (m ? " " : "") << "O " << m; showRel(os, r);
 				}
 			} else {
 				for (U m = 0; m <= n; ++m) {
+					if (n > 12 && !(m <= 2 || m == n / 2 || m + 1 >= n)) continue;      // larger systems: a sample of the output sizes
 					VATA::ExplicitLTS lts = mkLTS(n, es);
 					VATA::Util::BinaryRelation r = lts.computeSimulation(m);
 					os << (m ? " " : "") << "O " << m; showRel(os, r);
